@@ -188,3 +188,43 @@ func VerifC15ScaleProfiles() {
 		vObserve(p.SampleType[0].Unit)
 	}
 }
+
+func init() { vRegister("VerifC15ScaleColumns", VerifC15ScaleColumns) }
+
+// VerifC15ScaleColumns: ScaleProfiles on profiles with two sample types whose
+// units are chosen independently per profile and per column: each column ends
+// in the finest unit of that column and its values are converted by that
+// column's own ratio.
+func VerifC15ScaleColumns() {
+	units := []vUnitT{{"ns", "ns", 1}, {"us", "us", 1e3}, {"ms", "ms", 1e6}}
+	nu := vBound("c15.cunits", 3)
+	const k, cols = 2, 2
+	var ps []*profile.Profile
+	var us [k][cols]vUnitT
+	vals := [k][cols]int64{{1500, 7}, {-3, 6000}}
+	for i := 0; i < k; i++ {
+		p := &profile.Profile{Sample: []*profile.Sample{{Value: []int64{vals[i][0], vals[i][1]}}}}
+		for c := 0; c < cols; c++ {
+			u := units[vChoice("unit"+strconv.Itoa(i)+"."+strconv.Itoa(c), nu)]
+			us[i][c] = u
+			p.SampleType = append(p.SampleType, &profile.ValueType{Type: []string{"cpu", "wall"}[c], Unit: u.spell})
+		}
+		ps = append(ps, p)
+	}
+	if err := ScaleProfiles(ps); err != nil {
+		vAssert(false, "C15.scalecolumns.err: compatible units were rejected")
+		return
+	}
+	for c := 0; c < cols; c++ {
+		finest := us[0][c]
+		if us[1][c].factor < finest.factor {
+			finest = us[1][c]
+		}
+		for i, p := range ps {
+			vAssert(p.SampleType[c].Unit == finest.canon, "C15.scalecolumns.unit: a column's common unit is not the finest unit of that column")
+			want := int64(math.Round(float64(vals[i][c]) * (us[i][c].factor / finest.factor)))
+			vAssert(p.Sample[0].Value[c] == want, "C15.scalecolumns.value: a column's values were not converted by that column's own ratio")
+		}
+	}
+	vObserve(ps[0].SampleType[0].Unit, ps[0].SampleType[1].Unit)
+}
